@@ -524,6 +524,8 @@ Section Three.
   Hypothesis Hloud : forall id k, F id = Some k -> loud (kind_of id) k = true.
   Hypothesis Hans : forall id rep, json_wf (fst (answer id rep)) = true.
   Hypothesis Hroot : forall id, json_wf (fst (root_answer id)) = true.
+  Hypothesis Hrobj : roots_are_objects root_answer.
+  Hypothesis Hval : answers_valid answer root_answer.
   Variable A : N -> bool.
   Hypothesis HFA : forall id k, F id = Some k -> A id = true.
 
@@ -552,13 +554,13 @@ Section Three.
     FI sF' /\ sub_b (ls_data sF) (ls_data sF') = true /\ (A (f_id f) = false -> big_facts answer root_answer f (ls_data sF) (ls_data sF')).
   Proof.
     intros f s0 sF HR (Wd & (m & Hm) & He) Hok Hstep Hc. cbv zeta. intros Hh.
-    destruct (F_step_facts answer root_answer kind_of F Hloud Hans Hroot f s0 sF HR Hok Hstep Wd (ex_intro _ m Hm)) as (Hinf & Wd' & Hbig).
+    destruct (F_step_facts answer root_answer kind_of F Hloud Hans Hroot Hrobj Hval f s0 sF HR Hok Hstep Wd (ex_intro _ m Hm)) as (Hinf & Wd' & Hbig).
     split; [|split; [exact Hinf|]].
     - split; [exact Wd'|]. split; [rewrite Hm in Hinf; apply (sub_obj_root _ _ Hinf)|].
-      intros id Hid. apply run_fetch_errored_cases in Hid as [Hid|(-> & [Hsk|(d & rq & b & HP & Herr)])]; [apply He; exact Hid| |].
-      + destruct (A (f_id f)) eqn:Ea; [reflexivity|]. rewrite (not_skipped f sF Hc He Ea) in Hsk. discriminate.
-      + destruct (prepare_request _ _ _ _ _ _ HP) as [Hrq _]. unfold eF, faulty_exchange in Herr. cbn [fst] in Herr. rewrite Hrq in Herr.
-        destruct (F (f_id f)) as [k|] eqn:EF; [eapply HFA; exact EF|]. cbn in Herr. discriminate.
+      intros id Hid. destruct (A (f_id f)) eqn:Ea.
+      + apply run_fetch_errored_incl in Hid as [Hid| ->]; [apply He; exact Hid|exact Ea].
+      + assert (HF : F (f_id f) = None) by (destruct (F (f_id f)) as [k|] eqn:EF; [rewrite (HFA _ _ EF) in Ea; discriminate|reflexivity]).
+        destruct (Hbig HF (not_skipped f sF Hc He Ea)) as [Hee _]. unfold eF in Hid. rewrite Hee in Hid. apply He. exact Hid.
     - intros Ea. apply Hbig; [|apply not_skipped; assumption|exact Hh].
       destruct (F (f_id f)) as [k|] eqn:EF; [|reflexivity]. rewrite (HFA _ _ EF) in Ea. discriminate.
   Qed.
@@ -569,7 +571,7 @@ Section Three.
     intros f sG Hok Ha. unfold run_fetch. destruct (should_skip f sG); [reflexivity|].
     pose proof (prepare_data kind_of f (ls_data sG) (select_items (ls_data sG) (f_path f)) Hok) as Hpd.
     destruct (prepare f (ls_data sG) (select_items (ls_data sG) (f_path f))) as [d|d rq b] eqn:HP; [cbn; exact Hpd|].
-    destruct (prepare_request _ _ _ _ _ _ HP) as [Hrq _]. unfold eG, faulty_exchange, knock. rewrite Hrq, Ha. cbn [fst apply_fault rs_err].
+    destruct (prepare_request _ _ _ _ _ _ HP) as (Hrq & _ & _). unfold eG, faulty_exchange, knock. rewrite Hrq, Ha. cbn [fst apply_fault rs_err].
     unfold merge_result. cbn [rs_err]. cbn. exact Hpd.
   Qed.
 
@@ -589,7 +591,7 @@ Section Three.
     unfold run_fetch at 1. destruct (should_skip f sG); [exact HsD|].
     pose proof (prepare_data kind_of f (ls_data sG) (select_items (ls_data sG) (f_path f)) Hok) as Hpd.
     destruct (prepare f (ls_data sG) (select_items (ls_data sG) (f_path f))) as [d|dG rqG batchG] eqn:HP; [cbn [fst ls_data set_data]; subst d; exact HsD|].
-    subst dG. destruct (prepare_request _ _ _ _ _ _ HP) as [Hrq _].
+    subst dG. destruct (prepare_request _ _ _ _ _ _ HP) as (Hrq & _ & _).
     assert (Hload : load_ok answer root_answer f (ls_data sF) DF (select_items (ls_data sG) (f_path f)) rqG batchG).
     { destruct (f_kind f) eqn:K; [eapply load_sim_single|eapply load_sim_entity|eapply load_sim_batch]; eassumption. }
     destruct Hload as (_ & HneG & Hone & Hcont).
@@ -616,7 +618,7 @@ Section Three.
       { split; [exact HFI|]. destruct HFI as (W & _ & _). apply sub_refl. exact W. }
       rewrite forallb_app in Hwf. apply andb_prop in Hwf as [Hw1 Hw2]. apply andb_prop in Hc as [Hc1 Hc2].
       destruct (closed_app _ _ Hcl) as [Hcl1 Hcl2].
-      pose proof (tree_sim answer root_answer kind_of F Hloud t s0 sF HR Hw1 Hc1) as HR1.
+      pose proof (tree_sim answer root_answer kind_of F Hloud Hrobj t s0 sF HR Hw1 Hc1) as HR1.
       specialize (IH t s0 sF HR HFI Hw1 Hc1 Hcl1).
       destruct (run_tree unit (clean_exchange answer root_answer kind_of) t (s0, tt)) as [s1 []] eqn:R1.
       unfold eF in *. destruct (run_tree unit (faulty_exchange answer root_answer kind_of F) t (sF, tt)) as [sF1 []] eqn:RF1. cbn [fst] in *.
@@ -628,7 +630,7 @@ Section Three.
       { split; [exact HFI|]. destruct HFI as (W & _ & _). apply sub_refl. exact W. }
       rewrite forallb_app in Hwf. apply andb_prop in Hwf as [Hw1 Hw2]. apply andb_prop in Hc as [Hc1 Hc2].
       destruct (closed_app _ _ Hcl) as [Hcl1 Hcl2].
-      pose proof (tree_sim answer root_answer kind_of F Hloud t s0 sF HR Hw1 Hc1) as HR1.
+      pose proof (tree_sim answer root_answer kind_of F Hloud Hrobj t s0 sF HR Hw1 Hc1) as HR1.
       specialize (IH t s0 sF HR HFI Hw1 Hc1 Hcl1).
       destruct (run_tree unit (clean_exchange answer root_answer kind_of) t (s0, tt)) as [s1 []] eqn:R1.
       unfold eF in *. destruct (run_tree unit (faulty_exchange answer root_answer kind_of F) t (sF, tt)) as [sF1 []] eqn:RF1. cbn [fst] in *.
@@ -650,7 +652,7 @@ Section Three.
     - simpl in *. revert s0 sF sG HR HFI Hs Hwf Hc Hcl Hh. induction l as [|t r IHl]; intros s0 sF sG HR HFI Hs Hwf Hc Hcl Hh; [exact Hs|].
       rewrite forallb_app in Hwf. apply andb_prop in Hwf as [Hw1 Hw2]. apply andb_prop in Hc as [Hc1 Hc2].
       destruct (closed_app _ _ Hcl) as [Hcl1 Hcl2].
-      pose proof (tree_sim answer root_answer kind_of F Hloud t s0 sF HR Hw1 Hc1) as HR1.
+      pose proof (tree_sim answer root_answer kind_of F Hloud Hrobj t s0 sF HR Hw1 Hc1) as HR1.
       pose proof (F_tree_progress t s0 sF HR HFI Hw1 Hc1 Hcl1) as HP1.
       specialize (IH t s0 sF sG HR HFI Hs Hw1 Hc1 Hcl1).
       destruct (run_tree unit (clean_exchange answer root_answer kind_of) t (s0, tt)) as [s1 []] eqn:R1.
@@ -666,7 +668,7 @@ Section Three.
     - simpl in *. revert s0 sF sG HR HFI Hs Hwf Hc Hcl Hh. induction l as [|t r IHl]; intros s0 sF sG HR HFI Hs Hwf Hc Hcl Hh; [exact Hs|].
       rewrite forallb_app in Hwf. apply andb_prop in Hwf as [Hw1 Hw2]. apply andb_prop in Hc as [Hc1 Hc2].
       destruct (closed_app _ _ Hcl) as [Hcl1 Hcl2].
-      pose proof (tree_sim answer root_answer kind_of F Hloud t s0 sF HR Hw1 Hc1) as HR1.
+      pose proof (tree_sim answer root_answer kind_of F Hloud Hrobj t s0 sF HR Hw1 Hc1) as HR1.
       pose proof (F_tree_progress t s0 sF HR HFI Hw1 Hc1 Hcl1) as HP1.
       specialize (IH t s0 sF sG HR HFI Hs Hw1 Hc1 Hcl1).
       destruct (run_tree unit (clean_exchange answer root_answer kind_of) t (s0, tt)) as [s1 []] eqn:R1.
@@ -693,11 +695,12 @@ End Three.
 Lemma unaffected_lower_proof' : forall answer root_answer kind_of F (A : N -> bool) t,
   (forall id k, F id = Some k -> loud (kind_of id) k = true) ->
   (forall id rep, json_wf (fst (answer id rep)) = true) -> (forall id, json_wf (fst (root_answer id)) = true) ->
+  roots_are_objects root_answer -> answers_valid answer root_answer ->
   (forall id k, F id = Some k -> A id = true) -> closed_in A t ->
   fplan_wf kind_of t = true -> consistent answer root_answer kind_of t = true ->
   ls_hard (run answer root_answer kind_of F t) = false ->
   sub_b (ls_data (run answer root_answer kind_of (knock A) t)) (ls_data (run answer root_answer kind_of F t)) = true.
 Proof.
-  intros answer root_answer kind_of F A t Hl Ha Hr HFA Hcl Hwf Hc Hh.
-  exact (unaffected_lower_proof answer root_answer kind_of F Hl Ha Hr A HFA t Hwf Hc Hcl Hh).
+  intros answer root_answer kind_of F A t Hl Ha Hr Hro Hv HFA Hcl Hwf Hc Hh.
+  exact (unaffected_lower_proof answer root_answer kind_of F Hl Ha Hr Hro Hv A HFA t Hwf Hc Hcl Hh).
 Qed.
